@@ -10,19 +10,23 @@ use std::sync::atomic::{AtomicBool, AtomicU64, Ordering};
 use std::sync::Mutex;
 use std::time::Instant;
 
+/// per-worker cap of the distinct-case hash sets (memory bound; the evidence says when it was hit)
+const SET_CAP: usize = 3_000_000;
+
 pub const PROPS: [&str; 16] = ["C01", "C05", "C06", "C07", "C08", "C09", "C10", "C11", "C12", "C13", "C14", "C15", "C16", "C17", "C19", "C20"];
 
 fn budget(prop: &str, tier: Tier) -> u64 {
+    // runs per batch; sized for ~15-30 s (quick) and ~4-6 min (thorough) on 16 cores
     let (q, t) = match prop {
-        "C01" => (40_000, 1_500_000),
-        "C05" => (120_000, 4_000_000),
-        "C09" => (30_000, 600_000),
-        "C10" => (40_000, 1_000_000),
-        "C11" => (20_000, 400_000),
-        "C16" => (8_000, 200_000),
-        "C17" => (30_000, 600_000),
-        "C20" => (100_000, 3_000_000),
-        _ => (60_000, 2_000_000),
+        "C01" => (700_000, 12_000_000),
+        "C05" => (1_500_000, 30_000_000),
+        "C09" => (14_000, 280_000),
+        "C10" => (500_000, 8_000_000),
+        "C11" => (600_000, 10_000_000),
+        "C16" => (40_000, 700_000),
+        "C17" => (900_000, 14_000_000),
+        "C20" => (12_000_000, 200_000_000),
+        _ => (1_200_000, 24_000_000),
     };
     if tier == Tier::Quick {
         q
@@ -219,6 +223,24 @@ fn do_replay(file: &str) -> i32 {
     };
     let prop = j["property"].as_str().unwrap_or("").to_string();
     let class = j["class"].as_str().unwrap_or("").to_string();
+    if j["hang"].as_bool() == Some(true) {
+        // re-run the adaptive run under the watchdog
+        let g = j["gen_prop"].as_str().unwrap_or(&prop).to_string();
+        let tier = if j["tier"].as_str() == Some("thorough") { Tier::Thorough } else { Tier::Quick };
+        let run = j["run"].as_u64().unwrap_or(0);
+        let seed = j["seed"].as_u64().unwrap_or(1);
+        let file2 = file.to_string();
+        let prop2 = prop.clone();
+        std::thread::spawn(move || {
+            std::thread::sleep(std::time::Duration::from_secs(20));
+            println!("VIOLATION property={prop2} replay={file2}");
+            std::process::exit(1);
+        });
+        let mut rng = Rng::for_run(seed, &g, run);
+        let _ = scen::generate(&g, &mut rng, tier, run);
+        println!("replay of {file}: the run returned");
+        return 0;
+    }
     let case: Case = match serde_json::from_value(j["case"].clone()) {
         Ok(c) => c,
         Err(e) => {
@@ -256,15 +278,52 @@ fn batch(prop: &str, gen_prop: &str, tier: Tier, seed: u64, runs: u64, threads: 
     let agg: Mutex<Agg> = Mutex::new(Agg::default());
     let harness_err = AtomicBool::new(false);
     let wall_cap = if tier == Tier::Quick { 120.0 } else { 1500.0 };
+    // watchdog: a library call that does not return within 20 s of wall time is a violation
+    let beats: Vec<(AtomicU64, AtomicU64)> = (0..threads).map(|_| (AtomicU64::new(u64::MAX), AtomicU64::new(0))).collect();
+    let done = AtomicBool::new(false);
     std::thread::scope(|sc| {
-        for _ in 0..threads {
-            sc.spawn(|| {
+        sc.spawn(|| {
+            while !done.load(Ordering::Relaxed) {
+                std::thread::sleep(std::time::Duration::from_millis(500));
+                let now = t0.elapsed().as_millis() as u64;
+                for b in beats.iter() {
+                    let run = b.0.load(Ordering::Relaxed);
+                    let since = b.1.load(Ordering::Relaxed);
+                    if run != u64::MAX && now.saturating_sub(since) > 20_000 {
+                        let _ = std::fs::create_dir_all("replays");
+                        let path = format!("replays/{prop}-{seed}-{run}-hang.json");
+                        let j = json!({"property": prop, "class": "call-did-not-return", "seed": seed, "run": run, "hang": true, "gen_prop": gen_prop, "tier": if tier == Tier::Quick { "quick" } else { "thorough" }});
+                        std::fs::write(&path, serde_json::to_string_pretty(&j).unwrap()).ok();
+                        let abs = std::fs::canonicalize(&path).map(|p| p.display().to_string()).unwrap_or(path.clone());
+                        println!("violation class=call-did-not-return run={run}: a run exceeded 20 s of wall time");
+                        if prop == "C05" || prop == "C01" {
+                            println!("VIOLATION property={prop} replay={abs}");
+                            std::process::exit(1);
+                        } else {
+                            eprintln!("HARNESS ERROR: run {run} hangs (unbounded loop is C05's verdict); see {abs}");
+                            std::process::exit(2);
+                        }
+                    }
+                }
+            }
+        });
+        let mut handles = vec![];
+        for wi in 0..threads {
+            let beats = &beats;
+            let next = &next;
+            let found = &found;
+            let agg = &agg;
+            let harness_err = &harness_err;
+            handles.push(sc.spawn(move || {
                 let mut local = Agg::default();
                 loop {
                     let run = next.fetch_add(1, Ordering::Relaxed);
                     if run >= runs || t0.elapsed().as_secs_f64() > wall_cap {
+                        beats[wi].0.store(u64::MAX, Ordering::Relaxed);
                         break;
                     }
+                    beats[wi].1.store(t0.elapsed().as_millis() as u64, Ordering::Relaxed);
+                    beats[wi].0.store(run, Ordering::Relaxed);
                     let mut rng = Rng::for_run(seed, gen_prop, run);
                     let (case, o) = scen::generate(gen_prop, &mut rng, tier, run);
                     absorb(&mut local, prop, run, &case, &o, trace_hash);
@@ -283,8 +342,12 @@ fn batch(prop: &str, gen_prop: &str, tier: Tier, seed: u64, runs: u64, threads: 
                 }
                 let mut a = agg.lock().unwrap();
                 merge(&mut a, local);
-            });
+            }));
         }
+        for h in handles {
+            let _ = h.join();
+        }
+        done.store(true, Ordering::Relaxed);
     });
     let mut a = agg.into_inner().unwrap();
     let found = found.into_inner().unwrap();
@@ -413,8 +476,10 @@ fn absorb(a: &mut Agg, prop: &str, run: u64, case: &Case, o: &Outcome, trace_has
     for (k, v) in &o.faults {
         *a.faults.entry(k.clone()).or_insert(0) += v;
     }
-    a.shapes.insert(o.shape);
-    if o.nontrivial {
+    if a.shapes.len() < SET_CAP {
+        a.shapes.insert(o.shape);
+    }
+    if o.nontrivial && a.nontrivial_shapes.len() < SET_CAP {
         a.nontrivial_shapes.insert(o.shape);
     }
     for s in &o.states {
@@ -497,6 +562,13 @@ fn expected_probes(prop: &str) -> Vec<&'static str> {
         "C13" => vec!["c13_alias_only_sent", "c13_alias_bound", "c13_alias_rebound", "c13_invalid_alias_received", "c13_alias_resolved_on_receive"],
         "C14" => vec!["c14_oversize_received", "oversize_stored_dropped"],
         "C15" => vec!["c15_pingreq_rearmed", "c15_server_rearmed", "c15_expiry_pingreq_send", "c15_expiry_timeout", "c15_cancel", "c15_pingreq_sent"],
+        "C01" => vec!["c01_publish_delivered_end_to_end", "c01_quiescence_reached", "loss_mid_frame", "loss_with_bytes_in_flight", "resume_with_stored", "resume_with_stored_pubrel", "qos2_dup_suppressed", "crash_restore"],
+        "C09" => vec!["c09_partitions_checked", "c09_bursts_enumerated_completely_up_to_2_cuts", "c09_bad_remaining_length", "c09_multi_burst_history"],
+        "C10" => vec!["c10_history_with_adversarial_traffic", "c10_history_ends_with_partial_frame", "c10_history_ends_with_armed_timer", "c10_history_ends_with_pending_subscribe", "c10_history_ends_with_stored_packets", "c10_new_session_by_session_not_present"],
+        "C11" => vec!["c11_matrix_cells", "c11_matrix_cells_refused", "c11_compile_time_table_checked", "c11_refused_call_injected"],
+        "C16" => vec!["c16_crash_points", "c16_crash_with_stored_packets", "c16_crash_with_handled_qos2", "c16_malformed_export_duplicates"],
+        "C17" => vec!["c17_matrix_cells", "c17_matrix_cells_rejected", "c17_version_twin_runs", "c17_version_detected", "c17_connect_on_established", "c17_connack_on_established", "c17_forbidden_kind"],
+        "C05" => vec!["c05_reconnect_after_adversary", "c09_bad_remaining_length", "error_reported"],
         "C20" => vec!["c20_range_exhausted", "c20_three_or_more_intervals", "c20_u32_extreme_range", "c20_single_value_range", "c20_enumerated_case"],
         "C19" => vec!["c19_disconnect_sent", "c19_connack_refusal_sent", "c19_keepalive_timeout", "c19_close_requested"],
         _ => vec![],
